@@ -194,6 +194,22 @@ def matcher_features(fb, f):
                     dot = True
     feats['prefix_test'] = pref
     feats['dot_boundary'] = dot
+    # order of the per-descriptor steps (by position): strip suffixes, empty -> match all, length guard, equality, prefix
+    steps = []
+    for n in f.walk():
+        if n['k'] == 'CXXMemberCallExpr' and n.get('callee', {}).get('q', '').endswith('::find'):
+            lits = [s['str'] for s in sub(n) if s['k'] == 'StringLiteral' and 'str' in s]
+            arg2 = n['c'][2] if len(n.get('c', [])) > 2 else None
+            if lits and arg2 is not None and any(s['k'] == 'BinaryOperator' and s.get('op') == '-' for s in sub(arg2)):
+                steps.append((n['loc'][1], n['loc'][2], 'strip'))
+        if n['k'] == 'IfStmt':
+            c = strip(n['c'][0])
+            if c['k'] == 'BinaryOperator' and c.get('op') == '>' and all(any(x.get('callee', {}).get('q', '').endswith('::size') for x in sub(side)) for side in c['c']):
+                steps.append((n['loc'][1], n['loc'][2], 'length-guard'))
+            if c['k'] == 'BinaryOperator' and c.get('op') == '==' and tab.const_of(c['c'][1]) == 0 and any(x.get('callee', {}).get('q', '').endswith('::size') for x in sub(c['c'][0])):
+                steps.append((n['loc'][1], n['loc'][2], 'empty-matches'))
+    loop_line = min([s_[0] for s_ in steps] or [0])
+    feats['step_order'] = [k for _, _, k in sorted(steps)]
     return feats
 
 
@@ -218,6 +234,7 @@ def run(rep, tier):
     rep.rule('R12.1', 'one matcher: the interpreter, the validator and the debugger decide descriptor matches by calling uscxml::nameMatch; no second matcher is defined in src/')
     rep.rule('R12.2', 'scanner loops (tokenize, spaceNormalize, nameMatch and the copies shipped for generated C) take every non-empty token: guard normal form start < i, and a skip/start/last-token combination from the confirmed-correct table')
     rep.rule('R12.3', 'copy agreement: StateMachine::nameMatch (test-gen-c.cpp scaffolding) has the same decision features as uscxml::nameMatch')
+    rep.rule('R12.5', 'static resolution registers every event name: Trie::addWord marks the final node as a word under no other condition than that it is not one yet')
     rep.rule('R12.4', 'static resolution sites normalise descriptors alike: every non-literal argument of Trie::getWordsWithPrefix derived from an event-attribute token is stripped of a trailing "*"/".*" and a trailing "."')
     rep.assume('the relation nameMatch computes on all strings is not decided here (needs execution or a solver)')
     tus = QUICK if tier == 'quick' else facts.library_tus()
@@ -288,6 +305,10 @@ def run(rep, tier):
 
     # ---- R12.3
     a, b = fb.fn('uscxml::nameMatch'), fb.fn('StateMachine::nameMatch')
+    for fn_ in (a, b):
+        so = matcher_features(fb, fn_)['step_order']
+        core = [x for x in so if x in ('strip', 'length-guard')]
+        rep.check(core == ['strip', 'strip', 'length-guard'], 'R12.3', '%s|step order' % fn_.q, fn_.where(), 'per-descriptor steps in order %s: the optional trailing "*" and "." are stripped before the descriptor\'s length is compared with the event name' % so)
     fa, fbp = fingerprint(a.d['body']), fingerprint(b.d['body'])
     if fa == fbp:
         rep.ok('R12.3', 'nameMatch copies', 'structurally identical bodies (%d nodes) modulo identifier qualification' % len(fa))
@@ -340,3 +361,17 @@ def run(rep, tier):
                       'descriptor normalisation before the trie lookup: features %s -> trailing "*"/".*" %s, trailing "." %s' % (
                           sorted(feats), 'stripped' if star else 'NOT stripped (only exact "*" handled)' if 'eq:*' in feats else 'NOT stripped', 'stripped' if dot else 'NOT stripped'))
     rep.minimum('R12.4', sites, 2, 'trie lookups of event-attribute tokens (Promela, VHDL)')
+
+    # ---- R12.5
+    aw = fb.fn('uscxml::Trie::addWord')
+    marks = [n for n in aw.walk() if n['k'] == 'BinaryOperator' and n.get('op') == '=' and any(s['k'] == 'MemberExpr' and s['ref'].get('name') == 'hasWord' for s in sub(n['c'][0])) and tab.const_of(n['c'][1]) == 1]
+    if not marks:
+        raise AnalysisBroken('Trie::addWord no longer marks word nodes (hasWord = true)')
+    for mk in marks:
+        conds = [a_['c'][0] for a_ in aw.ancestors(mk) if a_['k'] == 'IfStmt']
+        extra = []
+        for cnd in conds:
+            names = {s['ref']['name'] for s in sub(cnd) if s['k'] in ('MemberExpr', 'DeclRefExpr') and 'name' in s.get('ref', {})}
+            if not ({'hasWord'} & names):
+                extra.append(fb.text(cnd)[:60])
+        rep.check(not extra, 'R12.5', 'Trie::addWord|word registration', locstr(mk), 'a word is registered whenever its node is not a word yet%s' % ('' if not extra else '; but here it additionally depends on `%s`: a word whose path already exists (prefix of a longer word) is never registered' % extra[0]))
